@@ -7,15 +7,33 @@ harness (compile + symex + SAT); it is several times the measured time.
 
 
 def H(name, module, tier='quick', budget=600, mem=10, bounds='', measured=None, cfg=None,
-      expect_fail_labels=None, extra=None):
+      expect_fail_labels=None, extra=None, nocover=False, allow_uncovered=None):
     return {
         'name': name, 'module': module, 'tier': tier, 'budget_s': budget, 'mem_gb': mem,
-        'bounds': bounds, 'measured_s': measured, 'cfg': cfg, 'extra': extra or [],
+        'bounds': bounds, 'measured_s': measured, 'cfg': cfg, 'extra': extra or [], 'nocover': nocover, 'allow_uncovered': allow_uncovered or [],
     }
 
 
 # Lift specifications (DESIGN.md L1): anchors into /repo/src, regenerated every run.
 LIFTS = {
+    # body of the per-segment loop of decode_regular
+    'decoder_segment_body': {
+        'file': 'src/decoder.rs',
+        'anchor': r"for\s*\(\s*line_index\s*,\s*segment\s*\)\s+in\s+line\s*\.split\(','\)\s*\.enumerate\(\)\s*\{",
+        'expect': [r'parse_vlq_segment_into', r'tokens\.push'],
+    },
+    # body of the per-mapping loop of the function-map decoder in decode_hermes
+    'hermes_mapping_body': {
+        'file': 'src/hermes.rs',
+        'anchor': r"for\s+mapping\s+in\s+line_mapping\s*\.split\(','\)\s*\{",
+        'expect': [r'parse_vlq_segment_into', r'mappings\.push'],
+    },
+    # body of the per-token loop of SourceMapIndex::flatten
+    'flatten_token_body': {
+        'file': 'src/types.rs',
+        'anchor': r"for\s+token\s+in\s+map\.tokens\(\)\s*\{",
+        'expect': [r'builder\.add\(', r'off_line'],
+    },
 }
 
 PROPS = {}
@@ -49,4 +67,163 @@ PROPS['C11'] = {
     'trusted': ['Kani/CBMC/CaDiCaL', 'rustc MIR of the scratch copy == what cargo builds from /repo', S1],
     'outside': ['lists of 3+ values (the parser loop is value-agnostic; c11_ref covers up to 8 one-digit values)',
                 'random longer strings', '13-digit texts whose payload needs more than 63 bits (only panic-freedom, C05)'],
+}
+
+
+SEG_FUNCS = ['decoder::decode_regular (body of the per-segment loop, lifted from /repo/src/decoder.rs at run time)',
+             'vlq::parse_vlq_segment_into']
+SEG_ASSUME = [
+    'L1: the loop header `for (line_index, segment) in line.split(\',\').enumerate()` is replaced by the harness, which '
+    'supplies an arbitrary segment text (no \',\' or \';\'), line_index < 10, any dst_line, any previous state '
+    '(dst_col, src_id, src_line, src_col, name_id: any u32), any array lengths < 2^32 (sources/names stand-ins expose len() only)',
+    'the per-line range bit vector is a mock exposing get(i) (bitvec code is outside this harness)',
+    'S1 (Vec::push never reallocates; capacity assertion)',
+]
+_SEG_UNCOV = {
+    1: ['negative source delta', '4-field range token', 'past 2^32', 'driven negative', 'name index past'],
+    2: ['negative source delta', '4-field range token', 'past 2^32', 'driven negative', 'name index past', 'well formed 1-field'],
+    3: ['negative source delta', '4-field range token', 'past 2^32', 'driven negative', 'name index past'],
+    4: ['negative source delta', 'name index past'],
+    14: ['well formed 1-field'],
+}
+
+
+def seg_harnesses(quick_lens, thorough_lens):
+    out = []
+    for n in quick_lens + thorough_lens:
+        out.append(H('c02_seg_len%d' % n, 'decoder', 'quick' if n in quick_lens else 'thorough', 900 if n < 12 else 1500, 10,
+                     'every segment text of exactly %d ASCII bytes (any number/size of VLQ fields, foreign bytes included) x any '
+                     'previous decoder state x any array lengths x any line_index < 10' % n,
+                     allow_uncovered=_SEG_UNCOV.get(n)))
+    return out
+
+
+PROPS['C02'] = {
+    'title': 'Decoding follows the Source Map v3 wire format',
+    'functions': SEG_FUNCS,
+    'harnesses': [H('c02_seg_empty', 'decoder', 'quick', 600, 8, 'the empty segment, any state', nocover=True)]
+                 + seg_harnesses([1, 4, 5, 8, 11], [2, 3, 6, 7, 10, 14]),
+    'assumptions': SEG_ASSUME,
+    'trusted': [S1, 'reference VLQ reader of h_vlq.rs'],
+    'outside': ['the outer loop headers mappings.split(\';\').zip(..).enumerate() and line.split(\',\').enumerate(): that the generated line is the number of preceding \';\' and that the column restarts per line',
+                'everything decided by serde_json (keys, types, null sources, numeric names, junk header + JSON)',
+                'sourceRoot joining (string formatting)', 'segments longer than 14 bytes'],
+}
+
+PROPS['C06'] = {
+    'title': 'Malformed mappings are rejected, never silently mis-decoded',
+    'functions': SEG_FUNCS,
+    'harnesses': [
+        H('c06_vlq_len%d' % n, 'vlq', 'quick' if n in (1, 2, 5, 8) else 'thorough', 900, 8,
+          'every ASCII string of exactly %d bytes: foreign byte / unterminated / empty / >13 digits => Err, else values = reference' % n)
+        for n in (1, 2, 3, 5, 8, 13, 14)
+    ] + [
+        H('c06_vlq_utf8_len5', 'vlq', 'quick', 600, 8,
+          '5-byte text with one valid 2-byte UTF-8 sequence (bytes >= 0x80) at any offset, other bytes alphabet digits'),
+    ] + seg_harnesses([2, 3, 5, 8, 11], [1, 4, 6, 7, 10, 14]),
+    'assumptions': SEG_ASSUME + [S1],
+    'trusted': [S1, 'reference VLQ reader of h_vlq.rs'],
+    'outside': ['that every segment of a document reaches the lifted body (the split loop headers)',
+                'rejection of malformed rangeMappings strings', 'malformed documents at the JSON level'],
+}
+
+PROPS['C04'] = {
+    'title': 'Token lookup returns the closest preceding mapping; tokens are always ordered',
+    'functions': ['utils::greatest_lower_bound', 'types::SourceMap::lookup_token', 'types::SourceMap::new',
+                  'types::SourceMap::get_token', 'types::SourceMap::tokens / TokenIter::next', 'types::SourceMap::get_token_count',
+                  'builder::SourceMapBuilder::add_raw', 'builder::SourceMapBuilder::into_sourcemap'],
+    'harnesses': [
+        H('c04_glb_n%d' % n, 'utils', 'quick' if n <= 6 else 'thorough', 600, 8,
+          'every sorted slice of exactly %d keys (u32,u32) x every query key' % n, nocover=(n == 0))
+        for n in (0, 1, 2, 3, 4, 5, 6, 7, 8, 12)
+    ] + [
+        H('c04_lookup_n%d' % n, 'types', 'quick' if n <= 4 else 'thorough', 900, 8,
+          'every sorted map of exactly %d tokens (full u32 fields, no range tokens) x every (line, col) incl. u32::MAX' % n,
+          nocover=(n == 0))
+        for n in (0, 1, 2, 3, 4, 5, 6, 8)
+    ] + [
+        H('c04_new_sorted_n%d' % n, 'types', 'quick' if n <= 4 else 'thorough', 900, 8,
+          'SourceMap::new on every sequence of exactly %d arbitrary tokens (real std sort)' % n, nocover=(n < 2))
+        for n in (0, 1, 2, 3, 4, 5)
+    ] + [
+        H('c04_builder_sorted_n%d' % n, 'types', 'quick', 900, 8,
+          'SourceMapBuilder: %d add_raw calls in arbitrary order, then into_sourcemap' % n, nocover=(n < 2))
+        for n in (0, 1, 2, 3)
+    ],
+    'assumptions': ['lookup harnesses build the map by struct literal and assume the tokens sorted (the invariant the '
+                    'c04_new_sorted / c04_builder_sorted harnesses show every constructor establishes)'],
+    'trusted': [],
+    'outside': ['executing rewrite / flatten themselves (string-keyed hash-map interning); they end in the same into_sourcemap',
+                'maps with more than 8 tokens', 'adjust_mappings ordering is asserted in the C10 harnesses'],
+}
+
+PROPS['C07'] = {
+    'title': 'Range mappings survive serialisation and shift lookups inside the range',
+    'functions': ['types::SourceMap::lookup_token', 'types::Token::get_src_col', SEG_FUNCS[0]],
+    'harnesses': [
+        H('c07_lookup_n%d' % n, 'types', 'quick' if n <= 4 else 'thorough', 900, 8,
+          'every sorted map of exactly %d tokens with arbitrary range flags x every (line, col)' % n)
+        for n in (1, 2, 3, 4, 5)
+    ] + seg_harnesses([4, 5, 8], []),
+    'assumptions': ['struct-literal maps, tokens assumed sorted (C04)'] + SEG_ASSUME,
+    'trusted': [],
+    'outside': [],
+}
+
+PROPS['C05'] = {
+    'title': 'Untrusted bytes never crash the library',
+    'functions': ['vlq::parse_vlq_segment_into', SEG_FUNCS[0], 'types::SourceMap::lookup_token', 'types::Token accessors',
+                  'types::SourceMap::get_source/get_name/get_source_contents/get_source_view/get_token',
+                  'types::SourceMapIndex::lookup_token/get_section'],
+    'harnesses': [
+        H('c05_vlq_any14', 'vlq', 'quick', 900, 8, 'any 0..14 bytes < 0x80 through parse_vlq_segment_into'),
+        H('c06_vlq_utf8_len5', 'vlq', 'quick', 600, 8, '5-byte text with a 2-byte UTF-8 sequence at any offset'),
+        H('c05_lookup_any', 'types', 'quick', 900, 8,
+          'sorted 3-token map, arbitrary flags and (dangling) ids, 1 source/name/content; any lookup position; every accessor; any index'),
+        H('c05_index_any', 'types', 'quick', 1200, 10,
+          '2 sections with non-decreasing (also equal) offsets, each with or without a 1-token map, any position, any section index'),
+    ] + seg_harnesses([14, 8], [11]),
+    'assumptions': ['post-parse stage only: inputs are the values serde_json would hand to the library, not bytes'] + SEG_ASSUME,
+    'trusted': [S1],
+    'outside': ['serde_json / base64 / url parsing of arbitrary bytes', 'hangs and allocation proportionality',
+                'Debug/Display formatting', 'function-name resolution (C17 n/a)', 'rewrite in all forms (hash-map interning)',
+                'serialisation to JSON text and re-decoding'],
+}
+
+PROPS['C08'] = {
+    'title': 'Index maps: section lookup and flattening describe the same mapping',
+    'functions': ['types::SourceMapIndex::lookup_token', 'utils::greatest_lower_bound', 'types::SourceMap::lookup_token'],
+    'harnesses': [
+        H('c08_lookup_2x1', 'types', 'quick', 1500, 10, '2 sections (strictly increasing offsets, any u32) x 1 token each, any position'),
+        H('c08_lookup_1x2', 'types', 'quick', 1500, 10, '1 section (any offset) x 2 sorted tokens, any position'),
+        H('c08_lookup_nomap', 'types', 'quick', 1500, 10, '2 sections, exactly one without a map, any position'),
+    ],
+    'assumptions': ['sections built through SourceMapSection::new / SourceMapIndex::new with strictly increasing offsets'],
+    'trusted': [],
+    'outside': [],
+}
+
+PROPS['C03'] = {
+    'title': 'Encoder output is valid v3 that any conforming reader decodes identically',
+    'functions': ['encoder::serialize_mappings', 'encoder::encode_vlq_diff', 'vlq::encode_vlq', 'types::TokenIter',
+                  'types::Token accessors'],
+    'harnesses': [
+        H('c03_diff_full', 'encoder', 'quick', 600, 8, 'encode_vlq_diff(a, b) for every pair of u32'),
+        H('c03_struct_n1', 'encoder', 'quick', 900, 10, '1 well-formed token, full 32-bit fields, lines 0..2; encode_vlq_diff replaced by a recorder', nocover=False,
+          allow_uncovered=['consecutive duplicate', 'empty line between', 'negative original-column', '1-field then', 'column u32::MAX']),
+        H('c03_struct_n2', 'encoder', 'quick', 1500, 12, '2 sorted well-formed tokens, full 32-bit fields, lines 0..2; recorder'),
+        H('c03_struct_n3', 'encoder', 'thorough', 3000, 14, '3 sorted well-formed tokens, full 32-bit fields, lines 0..2; recorder'),
+        H('c03_ser_n1_small', 'encoder', 'quick', 900, 10, '1 token, fields < 16, real VLQ writer, independent v3 reader',
+          allow_uncovered=['consecutive duplicate', 'empty line between', 'negative original-column', '1-field then']),
+        H('c03_ser_n2_small', 'encoder', 'quick', 1500, 12, '2 tokens, fields < 16, lines 0..2, real VLQ writer, independent v3 reader'),
+        H('c03_ser_n3_small', 'encoder', 'thorough', 3000, 14, '3 tokens, fields < 16, lines 0..2'),
+        H('c03_ser_n2_mid', 'encoder', 'thorough', 4500, 14, '2 tokens, fields < 2^10'),
+        H('c03_ser_n1_full', 'encoder', 'thorough', 3000, 14, '1 token, full 32-bit fields',
+          allow_uncovered=['consecutive duplicate', 'empty line between', 'negative original-column', '1-field then']),
+    ],
+    'assumptions': ['well-formed tokens as in C01 (no source and no name, or in-range source of 2 and optional in-range name of 2)',
+                    'generated line <= 2 (the format spends one byte per line)', S1,
+                    'c03_struct_*: encoder::encode_vlq_diff replaced by a recorder stub; c03_diff_full decides the replaced function'],
+    'trusted': [S1],
+    'outside': ['the JSON text itself (serde)', 'to_data_url', 'more than 3 tokens', 'source/name arrays longer than 2'],
 }
